@@ -4,7 +4,8 @@ scratch worktree and runs every property's quick check against it (VERIF_REPO mo
 VIOLATION line (C07 prints its KNOWN-FINDING). Usage: tools/harmless.py [IDs...]   Writes harmless/RESULTS.md."""
 import os, sys, json, subprocess, glob, shutil, time
 ROOT = os.path.dirname(os.path.dirname(os.path.abspath(__file__)))
-WT = "/tmp/wt-harmless"
+WT = os.environ.get("HARMLESS_WT", "/tmp/wt-harmless")
+LO, HI = (int(x) for x in os.environ.get("HARMLESS_RANGE", "1-14").split("-"))   # batch 1 = H01..H14, batch 2 = H15..H30 (the batches overlap in files)
 def sh(cmd): return subprocess.run(cmd, shell=True, stdout=subprocess.PIPE, stderr=subprocess.STDOUT, text=True)
 ids = sys.argv[1:] or [json.loads(l)["id"] for l in open(os.path.join(ROOT, "properties.jsonl"))]
 sh(f"git -C /repo worktree remove --force {WT}; git -C /repo worktree prune")
@@ -13,6 +14,7 @@ if r.returncode: print(r.stdout); sys.exit(2)
 rows, alt = [], None
 try:
     for p in sorted(glob.glob(os.path.join(ROOT, "harmless", "H*", "patch.diff"))):
+        if not LO <= int(os.path.basename(os.path.dirname(p))[1:]) <= HI: continue
         a = sh(f"git -C {WT} apply {p}")
         if a.returncode: print("does not apply:", p, a.stdout); sys.exit(2)
     for pid in ids:
@@ -29,7 +31,7 @@ finally:
     sh(f"git -C /repo worktree remove --force {WT}; git -C /repo worktree prune")
     if alt and os.path.basename(alt).startswith("alt-"): shutil.rmtree(alt, ignore_errors=True)
 if not sys.argv[1:]:
-    with open(os.path.join(ROOT, "harmless", "RESULTS.md"), "w") as f:
-        f.write("All 14 behaviour-preserving rewrites (harmless/H01..H14, written by an independent sub-agent; the 1131 baseline tests pass with them) applied together; every quick check must stay quiet.\n\n| property | result | s |\n|---|---|---|\n")
+    with open(os.path.join(ROOT, "harmless", "RESULTS.md" if LO == 1 else f"RESULTS-H{LO}-H{HI}.md"), "w") as f:
+        f.write(f"All behaviour-preserving rewrites harmless/H{LO:02d}..H{HI:02d} ( written by an independent sub-agent; the 1131 baseline tests pass with them) applied together; every quick check must stay quiet.\n\n| property | result | s |\n|---|---|---|\n")
         for r in rows: f.write("| " + " | ".join(str(x) for x in r) + " |\n")
 sys.exit(0 if all(r[1] == "QUIET" for r in rows) else 1)
